@@ -14,7 +14,7 @@ ASSUMPTIONS = [
 PROPS = {
     "C11": {"level": "proof"},
     "C15": {"level": "proof"},
-    "C09": {"level": "proof"},
+    "C09": {"level": "other"},
     "C04": {"level": "proof"},
     "C01": {"level": "other"},
     "C02": {"level": "other"},
